@@ -167,10 +167,8 @@ func decodeStringValue(reader ByteRuneReader, flag int32) (string, error) {
 		if err != nil {
 			return "", err
 		}
-		if newLength < length {
-			buf = buf[:newLength]
-			length = newLength
-		}
+		// every chunk carries its own length: it may be longer than the first one
+		buf = make([]rune, newLength)
 	}
 
 	return string(byteBuf.Bytes()), nil
